@@ -1767,20 +1767,11 @@ error:
 	return STATE_ERROR;
 }
 
-DLLIMPORT int cfg_parse_fp(cfg_t *cfg, FILE *fp)
+/* parse a stream; the caller has set cfg->filename to what diagnostics should name */
+static int cfg_parse_stream(cfg_t *cfg, FILE *fp)
 {
 	int ret;
 	int depth;
-
-	if (!cfg || !fp) {
-		errno = EINVAL;
-		return CFG_PARSE_ERROR;
-	}
-
-	if (!cfg->filename)
-		cfg->filename = strdup("FILE");
-	if (!cfg->filename)
-		return CFG_PARSE_ERROR;
 
 	cfg->line = 1;
 	depth = cfg_lexer_include_depth();
@@ -1793,6 +1784,27 @@ DLLIMPORT int cfg_parse_fp(cfg_t *cfg, FILE *fp)
 		return CFG_PARSE_ERROR;
 
 	return CFG_SUCCESS;
+}
+
+DLLIMPORT int cfg_parse_fp(cfg_t *cfg, FILE *fp)
+{
+	char *fn;
+
+	if (!cfg || !fp) {
+		errno = EINVAL;
+		return CFG_PARSE_ERROR;
+	}
+
+	/* a stream has no name of its own; do not keep the name of a file or
+	 * buffer parsed into this context earlier */
+	fn = strdup("FILE");
+	if (!fn)
+		return CFG_PARSE_ERROR;
+
+	free(cfg->filename);
+	cfg->filename = fn;
+
+	return cfg_parse_stream(cfg, fp);
 }
 
 static char *cfg_make_fullpath(const char *dir, const char *file)
@@ -1901,7 +1913,7 @@ DLLIMPORT int cfg_parse(cfg_t *cfg, const char *filename)
 	}
 #endif
 
-	ret = cfg_parse_fp(cfg, fp);
+	ret = cfg_parse_stream(cfg, fp);
 	fclose(fp);
 
 	return ret;
@@ -1940,7 +1952,7 @@ DLLIMPORT int cfg_parse_buf(cfg_t *cfg, const char *buf)
 		return CFG_SUCCESS;
 	}
 
-	ret = cfg_parse_fp(cfg, fp);
+	ret = cfg_parse_stream(cfg, fp);
 	fclose(fp);
 
 	return ret;
